@@ -148,6 +148,8 @@ fn emit_roundtrip(ctx: &mut Ctx, env: &TypeEnv, tys: &[Type], vals: &[IDLValue],
 }
 
 pub fn run(ctx: &mut Ctx) {
+    // the native half of the property: messages the native encoder writes for the corpus of Rust types
+    crate::c01::run_native_wellformed(ctx);
     // aliases of primitives, recursive and mutually recursive definitions, by hand
     {
         let mut env = TypeEnv::new();
